@@ -72,18 +72,32 @@ func showDelivered(pkg tds.Package) string {
 type rxEnv struct {
 	conn  *tds.Conn
 	ch    *tds.Channel
+	mc    *memConn // non-nil: the packets travel over the transport and through the connection's reader goroutine
+	chId  int
 	mu    sync.Mutex
 	hooks []string
 	nEed  int
 	nEnv  int
 }
 
-func newRxEnv(nEed, nEnv int) *rxEnv {
+func newRxEnv(nEed, nEnv int) *rxEnv { return newRxEnvVia(nEed, nEnv, false) }
+
+// newRxEnvVia: viaReader = the packets are written to an in-memory transport and reach the channel through
+// the real reader goroutine (Conn.ReadFrom → Packet.ReadFrom → WritePacket) instead of WritePacket calls
+func newRxEnvVia(nEed, nEnv int, viaReader bool) *rxEnv {
 	info := testInfo()
 	info.ChannelPackageQueueSize = 20000
-	conn, _ := tds.VerifNewConn(context.Background(), newCapConn(), info, false)
+	var conn *tds.Conn
+	var mc *memConn
+	if viaReader {
+		mc = newMemConn()
+		conn, _ = tds.VerifNewConn(context.Background(), mc, info, true)
+	} else {
+		conn, _ = tds.VerifNewConn(context.Background(), newCapConn(), info, false)
+	}
 	// the receive path is the same for the main channel and for logical channels: the id varies with the case
-	e := &rxEnv{conn: conn, ch: conn.VerifNewChannel((nEed + 2*nEnv) % 3)}
+	id := (nEed + 2*nEnv) % 3
+	e := &rxEnv{conn: conn, ch: conn.VerifNewChannel(id), mc: mc, chId: id}
 	// the hooks of a case are registered the way a driver does it: all at once from a list the caller keeps —
 	// and goes on using for something else afterwards (the channel must not go on sharing it: nothing written
 	// into the caller's list later is a registered hook, and no registered hook is lost)
@@ -144,6 +158,10 @@ func (e *rxEnv) feedPacket(tok string) bool {
 		if f[0] == "H" {
 			st = tds.TDS_BUFSTAT_EOM
 		}
+		if e.mc != nil {
+			e.overWire([]byte{byte(t), byte(st), 0, 8, byte(e.chId >> 8), byte(e.chId), 0, 0})
+			return true
+		}
 		e.ch.WritePacket(&tds.Packet{Header: tds.PacketHeader{MsgType: tds.PacketHeaderType(t), Status: st, Length: 8}})
 		return true
 	}
@@ -155,8 +173,28 @@ func (e *rxEnv) feedPacket(tok string) bool {
 	// b<status>: the packet header's status byte as a number — b0 / b1 without / with the end-of-message
 	// bit alone, b3 = EOM|ATTNACK, b9 = EOM|EVENT, b8 = EVENT without EOM …
 	st := tds.PacketHeaderStatus(stN)
+	if e.mc != nil {
+		if len(body)+8 > 65535 {
+			return false
+		}
+		l := len(body) + 8
+		e.overWire(append([]byte{4, byte(st), byte(l >> 8), byte(l), byte(e.chId >> 8), byte(e.chId), 0, 0}, body...))
+		return true
+	}
 	e.ch.WritePacket(&tds.Packet{Header: tds.PacketHeader{MsgType: 4, Status: st, Length: uint16(len(body) + 8)}, Data: append([]byte{}, body...)})
 	return true
+}
+
+// overWire hands one packet to the transport and waits until the reader goroutine has taken it and is
+// waiting for the next one (so that the case stays a sequence: packet, packet, read, …)
+func (e *rxEnv) overWire(pkt []byte) {
+	e.mc.feed(pkt)
+	for i := 0; i < 20000; i++ {
+		if e.mc.idleReader() {
+			return
+		}
+		time.Sleep(50 * time.Microsecond)
+	}
 }
 
 func rxImpl(line string) string {
@@ -169,7 +207,7 @@ func rxImpl(line string) string {
 	if e1 != nil || e2 != nil {
 		return "bad-op"
 	}
-	e := newRxEnv(ne, nv)
+	e := newRxEnvVia(ne, nv, f[0] == "rxr")
 	defer e.conn.VerifCancel()
 	send := false
 	for _, t := range f[3:] {
@@ -588,16 +626,29 @@ func c02Gen(tier string, rng *rand.Rand, emit func(Case)) {
 
 // collectRowFields: field lists of ROW / PARAMS packages (with their formats) from the registry generators,
 // without BLOB columns (known finding)
+var c02RowsByFormat = map[string][][]string{}
+
 func collectRowFields(tier string, rng *rand.Rand) [][]string {
 	var rowFields [][]string
+	c02RowsByFormat = map[string][][]string{}
 	for _, kind := range []string{"row", "params"} {
 		kind := kind
 		if c := codecRegistry[kind]; c != nil && c.Gen != nil && c.SpecEnc != nil && c.CtxFor != nil {
 			n := 0
 			c.Gen(tier, rand.New(rand.NewSource(rng.Int63())), func(fields string) {
 				f := strings.Fields(fields)
-				if n%7 == 0 && !ffIsBlobCase("pkg spec "+kind+" "+fields) {
-					rowFields = append(rowFields, append([]string{kind}, f...))
+				if !ffIsBlobCase("pkg spec " + kind + " " + fields) {
+					if n%7 == 0 {
+						rowFields = append(rowFields, append([]string{kind}, f...))
+					}
+					// every row the generators offer, by format: the pool from which the further rows of a result
+					// set are drawn (rows of one set share the format and differ in their values)
+					if ctx := c.CtxFor(f); len(ctx) > 0 {
+						key := kind + string(ctx)
+						if len(c02RowsByFormat[key]) < 8 {
+							c02RowsByFormat[key] = append(c02RowsByFormat[key], append([]string{kind}, f...))
+						}
+					}
 				}
 				n++
 			})
@@ -626,17 +677,26 @@ func resultSetResponse(rng *rand.Rand, rowFields [][]string) []byte {
 	// the data packages of one set carry DIFFERENT values where the generators offer several rows for the
 	// same format (a later row must not change an earlier one: values are rendered after all have arrived)
 	var same [][]byte
-	for _, other := range rowFields {
+	for _, other := range c02RowsByFormat[rf[0]+string(ctx)] {
 		if other[0] == rf[0] && len(same) < 6 && string(codecRegistry[other[0]].CtxFor(other[1:])) == string(ctx) {
 			if b, ok := codecRegistry[other[0]].SpecEnc(other[1:]); ok && len(b) < 1500 {
 				same = append(same, b)
 			}
 		}
 	}
-	for r := 0; r < 1+rng.Intn(3); r++ {
+	nrows := 1 + rng.Intn(3)
+	if len(same) > 1 && nrows == 1 {
+		nrows = 2
+	}
+	for r := 0; r < nrows; r++ {
 		next := row
 		if len(same) > 1 {
-			next = same[rng.Intn(len(same))]
+			next = same[(r+rng.Intn(len(same)-1))%len(same)]
+			if r == 0 {
+				next = same[0]
+			} else if string(next) == string(same[0]) {
+				next = same[1]
+			}
 		}
 		body = append(body, next...)
 		if rng.Intn(5) == 0 {
@@ -648,8 +708,10 @@ func resultSetResponse(rng *rand.Rand, rowFields [][]string) []byte {
 
 func c02Impl(line string) string {
 	switch {
-	case strings.HasPrefix(line, "rx "):
+	case strings.HasPrefix(line, "rx "), strings.HasPrefix(line, "rxr "):
 		return rxImpl(line)
+	case strings.HasPrefix(line, "user "):
+		return useImpl(line)
 	case strings.HasPrefix(line, "rd "):
 		return rdImpl(line)
 	case strings.HasPrefix(line, "use "):
@@ -885,7 +947,7 @@ func useImpl(line string) string {
 		return "bad-op"
 	}
 	specs := strings.Split(f[3], ",")
-	e := newRxEnv(ne, nv)
+	e := newRxEnvVia(ne, nv, f[0] == "user")
 	defer e.conn.VerifCancel()
 	var outs []string
 	r := 0
@@ -915,7 +977,7 @@ func useImpl(line string) string {
 
 func init() {
 	register(&Prop{
-		ID: "C02", Gen: c02Gen, Impl: c02Impl,
+		ID: "C02", Gen: func(tier string, rng *rand.Rand, emit func(Case)) { c02Gen(tier, rng, viaReaderTwins(emit)) }, Impl: c02Impl,
 		NoModel: func(line string) bool { return strings.HasPrefix(line, "rxsplit ") },
 		Oracle: func(line, out string) string {
 			if strings.HasPrefix(line, "rxsplit ") {
@@ -927,7 +989,7 @@ func init() {
 			if strings.HasPrefix(line, "rd ") {
 				return registry["C02rd"].Oracle(line, out)
 			}
-			return rxOracleC02(line, out)
+			return rxOracleC02(directLine(line), out)
 		},
 		FindingKey: func(line, out, clause string) string { return clause },
 		Nontrivial: func(line, out string) bool { return strings.Count(line, " b") >= 2 || strings.HasPrefix(line, "rd ") },
@@ -1048,4 +1110,42 @@ func largeResponses(rng *rand.Rand) [][]string {
 		}
 	}
 	return out
+}
+
+// viaReaderTwins wraps an emit: every 6th `rx` / `use` case (packets of at most 65527 body bytes) is emitted a
+// second time as `rxr` / `user` — the same packets written to an in-memory transport and brought to the channel
+// by the connection's real reader goroutine (Conn.ReadFrom, Packet.ReadFrom) instead of by WritePacket calls.
+// Same model line, same oracle: how the packets reach the channel changes nothing.
+func viaReaderTwins(emit func(Case)) func(Case) {
+	n := 0
+	return func(c Case) {
+		emit(c)
+		var twin string
+		switch {
+		case strings.HasPrefix(c.Line, "rx ") && !strings.Contains(c.Line, " send"):
+			twin = "rxr " + c.Line[3:]
+		case strings.HasPrefix(c.Line, "use "):
+			twin = "user " + c.Line[4:]
+		default:
+			return
+		}
+		if len(c.Line) > 100000 {
+			return
+		}
+		n++
+		if n%6 == 0 {
+			emit(Case{Line: twin, Kind: c.Kind + "-via-reader"})
+		}
+	}
+}
+
+// directLine: the `rx` / `use` line of an `rxr` / `user` line (for the oracles)
+func directLine(line string) string {
+	switch {
+	case strings.HasPrefix(line, "rxr "):
+		return "rx " + line[4:]
+	case strings.HasPrefix(line, "user "):
+		return "use " + line[5:]
+	}
+	return line
 }
